@@ -1133,7 +1133,7 @@ fn mirror(q: &str) -> String {
 
 /// a tryptic peptide that differs from its mirror image; `equal`: the f32 residue sums of the two orders have
 /// the same bits (then a generated decoy and the mirror-image target of another chunk are merged), or differ
-/// (one ulp: they are not merged — known finding)
+/// (one ulp: before the repair of reorder_peptides they were not merged)
 fn mirror_peptide(rng: &mut Rng, equal: bool) -> String {
     const AA: &[u8] = b"ACDEFGHILMNQSTVWY";
     loop {
@@ -1312,7 +1312,7 @@ fn gen_chunked(rng: &mut Rng, thorough: bool, emit: &mut dyn FnMut(Case)) {
         let c = ChunkCase { k, seed: rng.next() % 1000, drop, kfree, r };
         emit_chunk(emit, &c, &tags);
     }
-    // separate stream (known finding): mirror pairs whose f32 residue sums differ in the last bit
+    // mirror pairs whose f32 residue sums differ in the last bit (fixed defect: they were not merged)
     let r = chunk_base(hx(vec![("P1", "LEQSMDEK"), ("P2", "LEDMSQEK")]));
     emit_chunk(emit, &ChunkCase { k: 1, seed: 1, drop: false, kfree: false, r }, &["mirror_sums_differ_stream", "directed"]);
     for _ in 0..(if thorough { 20 } else { 3 }) {
